@@ -575,10 +575,13 @@ class BaseCurve(Intface_BaseCurve):
                 oldctrlpoints[i] *= weight
             newctrlpoints = []
             for i, line in enumerate(matrix):
+                weight = self.weights[i]
+                if isinstance(weight, (int, np.integer)):
+                    weight = Fraction(int(weight))  # int / int would be a float
                 newctrlpoints.append(0 * oldctrlpoints[0])
                 for j, point in enumerate(oldctrlpoints):
                     newpoint = line[j] * point
-                    newpoint /= self.weights[i]
+                    newpoint /= weight
                     newctrlpoints[i] += newpoint
             self.ctrlpoints = newctrlpoints
 
@@ -977,7 +980,11 @@ class Curve(BaseCurve):
                 weights = np.dot(matrix, self.weights)
                 points = [wi * pt for wi, pt in zip(self.weights, self.ctrlpoints)]
                 points = np.dot(matrix, points)
-                newcurve.ctrlpoints = [pt / wi for pt, wi in zip(points, weights)]
+                exact = [
+                    Fraction(int(wi)) if isinstance(wi, (int, np.integer)) else wi
+                    for wi in weights
+                ]  # int / int would be a float
+                newcurve.ctrlpoints = [pt / wi for pt, wi in zip(points, exact)]
                 newcurve.weights = weights
             newcurves.append(newcurve)
         return tuple(newcurves)
